@@ -111,3 +111,63 @@ Definition C03_case (c : text_case) : N :=
 
 Definition C03_model (c : text_case) : list (res (list N)) :=
   let '(t, v, ds, _) := c in map (fun dc => text_render (Wof t) (snd (fst dc)) v) ds.
+
+(* ------------------------------------------------------------------ *)
+(* Histories of renders whose render-time callbacks change cells
+   (Model/TextLive.v): the case carries the cells with their successive
+   contents, the registrations in registration order, and what each of the
+   successive Render() calls through the one wrapper returned. *)
+From Tab Require Export Model.TextLive Spec.TextPassSpec.
+
+(* a live cell from its successive contents, the first being what it holds
+   when the history starts; never measured yet *)
+Definition LCl (states : list vcell) : pcell :=
+  match states with
+  | [] => (mkLC blank_vcell [], None)
+  | c :: r => (mkLC c r, None)
+  end.
+
+Definition live_case := (wtab * ptable * list reg * decoration * list (res (list N)) * bool)%type.
+
+Definition pcell_states (pc : pcell) : list vcell := lc_cur (fst pc) :: lc_next (fst pc).
+Definition pt_all_cells (t : ptable) : list pcell :=
+  (match pt_header t with Some h => h | None => [] end)
+  ++ flat_map (fun r => match r with Some cs => cs | None => [] end) (pt_rows t).
+
+Definition live_keys_present (tb : wtab) (t : ptable) (d : decoration) : bool :=
+  forallb (fun pc => forallb (fun c => forallb (has_key tb) (cell_lines c)) (pcell_states pc)) (pt_all_cells t)
+  && forallb (has_key tb) (d_fields d).
+
+Fixpoint judge_renders (f : nat -> res (list N) -> bool) (j : nat) (obs : list (res (list N))) : bool :=
+  match obs with
+  | [] => true
+  | o :: r => f j o && judge_renders f (S j) r
+  end.
+
+(* C03 on what every render of the history really returned: the bytes are the
+   flattened layout - a rectangle with fitted columns - of the table whose
+   cells are as the last measuring callback of that render found them
+   (Spec/TextPassSpec.v), computed from the input alone *)
+Definition C03_live_ok (c : live_case) : bool :=
+  let '(tb, t, regs, d, obs, _) := c in
+  judge_renders (fun j o => C03_ok1 tb (spec_view regs t j) (None, d, o)) 0 obs.
+
+Definition C03_live_corr (c : live_case) : bool :=
+  let '(tb, t, regs, d, obs, flag) := c in
+  live_keys_present tb t d
+  && list_eqb (res_eqb bytes_eqb) (render_seq (Wof tb) d regs t (length obs)) obs
+  && judge_renders (fun j _ => Bool.eqb (in_domain tb d (spec_view regs t j)) flag) 0 obs.
+
+Inductive c03_case := CPlain (c : text_case) | CLive (c : live_case).
+
+Definition C03_case_all (c : c03_case) : N :=
+  match c with
+  | CPlain x => C03_case x
+  | CLive x => code (C03_live_corr x) (C03_live_ok x)
+  end.
+
+Definition C03_model_all (c : c03_case) : list (res (list N)) :=
+  match c with
+  | CPlain x => C03_model x
+  | CLive x => let '(tb, t, regs, d, obs, _) := x in render_seq (Wof tb) d regs t (length obs)
+  end.
